@@ -31,6 +31,10 @@ func e2ePointBases(seed int64, thorough bool) []*e2eCase {
 	// a download whose blocks grow while the buffer size is probed
 	mk(true, true, 4, 600<<10, 2048, false)
 	mk(false, false, 4, 5<<20, 10<<20, true)
+	// files of a few blocks: everything, the closing block included, has arrived while the first piece is still
+	// being written (the receiver waits in its final-acknowledgement loop)
+	mk(true, false, 4, 5000, 2048, true).Tag = "few"
+	mk(false, true, 4, 5000, 2048, false).Tag = "few"
 	if thorough {
 		mk(false, true, 3, 600<<10, 4096, false)
 		mk(true, false, 2, 3<<20, 1<<20, true)
@@ -65,6 +69,23 @@ func e2ePoints(d *vCtx) error {
 			}
 		}
 		for _, c := range bases {
+			// a destination write that does not come back (pipe.sav.got sits right in front of it) while the user stops
+			// (param hold; off in the registered checks: on the unchanged tree five of the six combinations of direction
+			// and stopping side wait for the write -- the progress stage is joined, the stopping sender drains while the
+			// receiver's final-acknowledgement loop keeps writing -- and C10 does not quantify over stalled destinations)
+			for _, k := range kinds {
+				if !d.pBool("hold", false) {
+					break
+				}
+				if strings.HasPrefix(k, "stop") {
+					for _, nth := range []int{1, 2} {
+						jobs = append(jobs, job{c, e2ePlan{Point: &e2ePoint{Name: "pipe.sav.got", Nth: nth, SettleMs: 300, Kind: k, HoldMs: 14000}, CheckLeft: false}})
+					}
+				}
+			}
+			if c.Tag == "few" {
+				continue
+			}
 			for _, p := range all {
 				nths := []int{1, 4}
 				if thorough {
